@@ -1,0 +1,22 @@
+//! Verification hooks, compiled only with the `verif-hooks` cargo feature.
+//!
+//! An injectable millisecond clock: when a test installs an override on the current
+//! thread, the time-dependent code paths that consult it (state-store TTL and checkpoint
+//! ids, stream alpha-node windows) use the injected value instead of the system clock.
+//! With no override installed the real clock is used, so behaviour is unchanged.
+
+use std::cell::Cell;
+
+thread_local! {
+    static CLOCK_MS: Cell<Option<u64>> = const { Cell::new(None) };
+}
+
+/// Install (Some) or remove (None) the clock override for the current thread.
+pub fn set_clock_ms(ms: Option<u64>) {
+    CLOCK_MS.with(|c| c.set(ms));
+}
+
+/// The injected time, if an override is installed on this thread.
+pub fn clock_override_ms() -> Option<u64> {
+    CLOCK_MS.with(|c| c.get())
+}
